@@ -178,3 +178,19 @@ func KeyForS(s, z, k *big.Int) (d, r *big.Int, recid int, ok bool) {
 func Sig65(r, s *big.Int, recid int) []byte {
 	return append(append(B32(r), B32(s)...), byte(recid))
 }
+
+// PointWithY returns a curve point with the given ordinate, if y^2-7 is a cube (p = 7 mod 9, so a cube
+// root of a is a^((p+2)/9) whenever one exists). Used to build VALID keys with extreme ordinates.
+func PointWithY(y *big.Int) (Pt, bool) {
+	yy := new(big.Int).Mod(y, P)
+	c := new(big.Int).Mul(yy, yy)
+	c.Sub(c, big.NewInt(7))
+	c.Mod(c, P)
+	e := new(big.Int).Add(P, big.NewInt(2))
+	e.Div(e, big.NewInt(9))
+	x := new(big.Int).Exp(c, e, P)
+	if new(big.Int).Exp(x, big.NewInt(3), P).Cmp(c) != 0 {
+		return Infinity, false
+	}
+	return Pt{X: x, Y: yy}, true
+}
